@@ -15,10 +15,20 @@ def install(ext, schema):
     if ('client', 'callbacks') in schema.fields:
         ext.counter_fields[('client', 'callbacks')] = ('client', 'ack_next')
         ext.counter_atom = views.COUNTER
+    ext.class_ctors['engineio.packet.Packet'] = eio_packet_ctor
+    cfg_uses_binary = z3.Const('cfg_uses_binary_events', B)
+    ext.module_attrs[('classattr', 'socketio.packet.Packet', 'uses_binary_events')] = lambda eng, ctx: S(cfg_uses_binary)
     m = ext.obj_methods
     m[('EioServer', 'generate_id')] = eio_generate_id
     m[('EioServer', 'send')] = eio_server_send
     m[('EioServer', 'send_packet')] = eio_server_send_packet
+
+
+def eio_packet_ctor(eng, ctx, args, kwargs):
+    """engineio.packet.Packet(MESSAGE, data): identified with its data frame"""
+    eng.ext.note('engine.io: send_packet(sid, Packet(MESSAGE, f)) queues the same frame as send(sid, f)')
+    items = args.items()
+    yield ctx, items[1]
 
 
 class _C:
